@@ -48,6 +48,10 @@ def corruptions(entry, name, order, marker):
     out.append(("eq0", dict(entry, expression=lhs + " " + rhs), "malformed"))
     out.append(("eq2", dict(entry, expression=entry["expression"] + " = 0"), "malformed"))
     out.append(("both-spellings", dict(entry, initial_value="1", initial_values={name + "'" * k: "1" for k in range(max(order, 1))}), "malformed"))
+    # both keys present, the singular one with an empty / null / zero value (an entry built from a stored record that always carries both keys):
+    # refusing "both spellings" is about the KEYS, not about what they hold
+    for tag, val in (("empty", ""), ("null", None), ("zero", "0")):
+        out.append(("both-spellings-" + tag, dict(entry, initial_value=val, initial_values={name + "'" * k: "1" for k in range(max(order, 1))}), "malformed"))
     if order >= 1:
         e = {k: v for k, v in entry.items() if k not in ("initial_value", "initial_values")}
         out.append(("iv-missing-all", e, "malformed"))
@@ -135,7 +139,7 @@ def to_model_entry(e):
     if "expression" in e:
         m["expression"] = e["expression"]
     if "initial_value" in e:
-        m["initial_value"] = e["initial_value"]
+        m["initial_value"] = "None" if e["initial_value"] is None else e["initial_value"]      # the key is present: the model sees a string
     if "initial_values" in e:
         m["initial_values"] = [[k, v] for k, v in e["initial_values"].items()]
     return m
